@@ -589,6 +589,69 @@ def translate_kernel(tree, site):
     return text
 
 
+def translate_retfun(tree, site):
+    """whole-function translation in *return style* (site kind `retfun`): the body is a sequence of assignments and
+    `if` statements whose branches may end in `return e`; the function value is the first `return` reached.
+        [return e; ...]          -> e                      (what follows a return is dead code)
+        [x = e; rest]            -> let x := e in [rest]
+        [if c: A else: B; rest]  -> if c then [A; rest] else [B; rest]
+    `if p is [not] None` on an optional parameter becomes a `match` that rebinds p as a plain value in the Some branch, so no
+    totalised `opt_get` appears.  The formal parameters must be exactly the declared ones (a new parameter is a new input
+    of the function and fails closed); a path without a return, a bare `return`, loops, `raise` and anything else are Unsupported."""
+    fn = find_function(tree, site["func"])
+    a = fn.args
+    formals = [x.arg for x in a.posonlyargs + a.args + a.kwonlyargs]
+    if a.vararg or a.kwarg or formals != list(site["params"]):
+        raise Unsupported(f"formal parameters {formals} differ from the declared {list(site['params'])}")
+    K = Kernel(dict(site["params"]), site.get("funcs"))
+    want = site.get("result", "num")
+
+    def seq(stmts, depth):
+        stmts = [x for x in stmts if not is_docstring(x)]
+        if not stmts:
+            raise Unsupported("a path reaches the end of the function without `return`")
+        st, rest = stmts[0], stmts[1:]
+        pad = "  " * depth
+        if isinstance(st, ast.Return):
+            if st.value is None:
+                raise Unsupported("bare return")
+            v, ty = K.X.expr(st.value)
+            if ty != want:
+                raise Unsupported(f"return of type {ty}, expected {want}: {src(st.value)}")
+            return pad + v
+        if isinstance(st, ast.If):
+            saved = dict(K.X.ty)
+            t = st.test
+            opt = None
+            if (isinstance(t, ast.Compare) and len(t.ops) == 1 and isinstance(t.ops[0], (ast.Is, ast.IsNot))
+                    and isinstance(t.left, ast.Name) and isinstance(t.comparators[0], ast.Constant)
+                    and t.comparators[0].value is None and saved.get(t.left.id) == "optnum"):
+                opt = t.left.id
+            if opt is not None:
+                some_body, none_body = (st.orelse, st.body) if isinstance(t.ops[0], ast.Is) else (st.body, st.orelse)
+                K.X.ty = dict(saved); K.X.ty[opt] = "num"
+                s_txt = seq(list(some_body) + rest, depth + 1)
+                K.X.ty = dict(saved)
+                n_txt = seq(list(none_body) + rest, depth + 1)
+                K.X.ty = saved
+                return (f"{pad}match {cname(opt)} with\n{pad}| Some {cname(opt)} =>\n{s_txt}\n{pad}| None =>\n{n_txt}\n{pad}end")
+            c = K.cond(t)
+            K.X.ty = dict(saved)
+            a_txt = seq(list(st.body) + rest, depth + 1)
+            K.X.ty = dict(saved)
+            b_txt = seq(list(st.orelse) + rest, depth + 1)
+            K.X.ty = saved
+            return f"{pad}if {c} then\n{a_txt}\n{pad}else\n{b_txt}"
+        if isinstance(st, (ast.Assign, ast.AnnAssign, ast.AugAssign)):
+            lets = K.block([st], depth)
+            return "".join(f"{pad}let {x} := {y} in\n" for x, y in lets) + seq(rest, depth)
+        raise Unsupported("statement " + src(st)[:80])
+
+    body = seq(list(fn.body), 1)
+    args = " ".join(f"({cname(p_)} : {COQTY[t_]})" for p_, t_ in site["params"].items())
+    return f"Definition {site['name']} {args} : {COQTY[want]} :=\n{body}.\n"
+
+
 # ----------------------------------------------------------------------------------------------
 # guards
 # ----------------------------------------------------------------------------------------------
